@@ -24,7 +24,7 @@ ASSUMPTIONS = ['substituents of a stereo double bond are saturated (pysmiles rej
 
 def budget(tier):
     if tier == 'thorough':
-        return dict(examples=800, shards=16, procs=16)
+        return dict(examples=3000, shards=16, procs=16)
     return dict(examples=300, shards=4, procs=4)
 
 
